@@ -34,7 +34,7 @@ Definition ops_plain (ops : list pop) (p : plain) : plain :=
   plain_of_items (fold_left (fun xs o => apply_pop o xs) ops (items_of_plain p)).
 
 (* source bytes -> reader -> operations -> writer -> destination bytes *)
-Definition convert_plain_ops (decA : str -> res plain) (encB : plain -> res str) (ops : list pop) (data : str) : res str :=
+Definition convert_plain_ops {SA SB : Type} (decA : SA -> res plain) (encB : plain -> res SB) (ops : list pop) (data : SA) : res SB :=
   match decA data with
   | Ok p => encB (ops_plain ops p)
   | Err k => Err k
